@@ -452,6 +452,66 @@ func runC13(cfg *runCfg) (*Summary, error) {
 			break
 		}
 	}
+	// two registrations of ONE identifier racing (a pairing against a re-registration
+	// of its key or of its id): each is atomic, so afterwards the identifier's id and
+	// its key lead to the same tree, the one of the registration that came second
+	if len(sum.OracleFails) == 0 {
+		pairs := 1500
+		if cfg.tier == "thorough" {
+			pairs = 30000
+		}
+		decoder.VerifResetRegistry()
+		tA, errA := decoder.Parse([]byte("obj.Status = 1\n"))
+		tB, errB := decoder.Parse([]byte("obj.Status = 2\n"))
+		if errA != nil || errB != nil {
+			return nil, fmt.Errorf("C13 marker programs rejected")
+		}
+		ctx := decoder.NewCtx()
+		obj := &testobj.TestObject{}
+		run := func(f func() error) (int32, error) {
+			ctx.Reset()
+			obj.Status = -1
+			ctx.Set("obj", obj, testobj_ins.TestObjectInspector{})
+			err := f()
+			return obj.Status, err
+		}
+		for i := 0; i < pairs; i++ {
+			id, key := 1000+i, fmt.Sprintf("race%d", i)
+			var ready int32
+			var wg sync.WaitGroup
+			wg.Add(2)
+			gate := func() {
+				atomic.AddInt32(&ready, 1)
+				for atomic.LoadInt32(&ready) < 2 {
+				}
+			}
+			go func() { defer wg.Done(); gate(); decoder.RegisterDecoder(id, key, tA) }()
+			go func() {
+				defer wg.Done()
+				gate()
+				if i%2 == 0 {
+					decoder.RegisterDecoderKey(key, tB)
+				} else {
+					decoder.RegisterDecoderID(id, tB)
+				}
+			}()
+			wg.Wait()
+			byID, e1 := run(func() error { return decoder.DecodeByID(id, ctx) })
+			byKey, e2 := run(func() error { return decoder.Decode(key, ctx) })
+			sum.Evaluations += 2
+			sum.Distribution["racing registrations of one identifier"]++
+			if e1 != nil || e2 != nil || byID != byKey {
+				other := "RegisterDecoderKey(key, B)"
+				if i%2 == 1 {
+					other = "RegisterDecoderID(id, B)"
+				}
+				sum.OracleFails = append(sum.OracleFails, OracleFail{What: "two concurrent registrations of one identifier left its id and its key leading to different trees (no serial order of the two does)",
+					Input: map[string]any{"history": "RegisterDecoder(id, key, A) || " + other + "; then DecodeByID(id), Decode(key)", "id": id, "key": key, "pair_number": i},
+					Expect: "both decodes run the same tree", Got: fmt.Sprintf("DecodeByID ran %d (err %v), Decode ran %d (err %v)", byID, e1, byKey, e2)})
+				break
+			}
+		}
+	}
 	sum.Samples = append(sum.Samples, map[string]any{"writer": "for m := 1..: RegisterDecoder(w, k<w>, tree(m)) / RegisterDecoderKey / RegisterDecoderID in turn", "reader": "Decode(k<w>) / DecodeByID(w) / DecodeFallback(nosuch, k<w>) -> version monotone, complete, not older than a returned registration"})
 	decoder.VerifResetRegistry()
 	return sum, nil
